@@ -9,41 +9,41 @@ Run:  lake env lean --run TraitsVerif/Driver/Map.lean
 import TraitsVerif.Driver.Proto
 import TraitsVerif.Model.TraitDict
 namespace TraitsVerif.Driver.Map
-open TraitsVerif TraitsVerif.Py TraitsVerif.Model TraitsVerif.Proto
+open TraitsVerif TraitsVerif.Py TraitsVerif.Model.Map TraitsVerif.Proto
 open TraitsVerif.Py.Dict (Op Ret)
 
-def atom? (s : String) : Option Atom :=
+def atom? (s : String) : Option KAtom :=
   let s := clean s
   match s.toList with
-  | 'i' :: rest => (String.ofList rest).toInt?.map Atom.int
-  | 's' :: rest => (String.ofList rest).toInt?.map Atom.str
+  | 'i' :: rest => (String.ofList rest).toInt?.map KAtom.int
+  | 's' :: rest => (String.ofList rest).toInt?.map KAtom.str
   | _ => none
 
-def showAtom : Atom → String
+def showAtom : KAtom → String
   | .int n => s!"i{n}"
   | .str n => s!"s{n}"
 
-def pair? (s : String) : Option (Atom × Atom) :=
+def pair? (s : String) : Option (KAtom × KAtom) :=
   match (clean s).splitOn ":" with
   | [k, v] => do pure (← atom? k, ← atom? v)
   | _ => none
 
 /-- `[i1:s2,s3:i4]`. -/
-def pairs? (s : String) : Option (List (Atom × Atom)) :=
+def pairs? (s : String) : Option (List (KAtom × KAtom)) :=
   let s := clean s
   if s.length < 2 then none
   else
     let inner := ((s.drop 1).dropEnd 1).toString
     if clean inner = "" then some [] else (inner.splitOn ",").mapM pair?
 
-def showPairs (d : List (Atom × Atom)) : String :=
+def showPairs (d : List (KAtom × KAtom)) : String :=
   "{" ++ ",".intercalate (d.map fun p => s!"{showAtom p.1}:{showAtom p.2}") ++ "}"
 
 /-- Event dicts are printed sorted by key (their order is not part of C06). -/
-def showSorted (d : List (Atom × Atom)) : String :=
-  showPairs (d.mergeSort (fun a b => Atom.le a.1 b.1))
+def showSorted (d : List (KAtom × KAtom)) : String :=
+  showPairs (d.mergeSort (fun a b => KAtom.le a.1 b.1))
 
-def parseOp (s : String) : Option (Op Atom Atom) :=
+def parseOp (s : String) : Option (Op KAtom KAtom) :=
   match words s with
   | ["si", k, v] => do pure (.setitem (← atom? k) (← atom? v))
   | ["di", k] => do pure (.delitem (← atom? k))
@@ -59,13 +59,13 @@ def parseOp (s : String) : Option (Op Atom Atom) :=
   | ["cl"] => some .clear
   | _ => none
 
-def showRet : Ret Atom Atom → String
+def showRet : Ret KAtom KAtom → String
   | .none => "-"
   | .val v => s!"v:{showAtom v}"
   | .pair k v => s!"p:{showAtom k}:{showAtom v}"
   | .self => "self"
 
-def showSeen : Seen Atom Atom → String
+def showSeen : Seen KAtom KAtom → String
   | .raw t => s!"R{showSorted t.removed}{showSorted t.added}{showSorted t.changed}"
   | .event e => s!"O{showSorted e.removed}{showSorted e.added}"
   | .failed e => s!"X{e.name}"
@@ -73,7 +73,7 @@ def showSeen : Seen Atom Atom → String
 def parseNotifiers (s : String) : Option (List NotifierKind) :=
   (clean s).toList.mapM fun c => if c = 'r' then some .raw else if c = 'o' then some .observer else none
 
-def showRes (ns : List NotifierKind) : Except Exc (DOut Atom Atom) → String
+def showRes (ns : List NotifierKind) : Except Exc (DOut KAtom KAtom) → String
   | .error e => s!"err {e.name}"
   | .ok o =>
     let seen := match o.event with
@@ -81,7 +81,7 @@ def showRes (ns : List NotifierKind) : Except Exc (DOut Atom Atom) → String
       | some t => notifyAll o.items ns t
     s!"ok {showPairs o.items} {showRet o.ret} [{",".intercalate (seen.map showSeen)}]"
 
-def pyRun : Dict Atom Atom → List (Op Atom Atom) → List String
+def pyRun : Dict KAtom KAtom → List (Op KAtom KAtom) → List String
   | _, [] => []
   | d, op :: ops =>
     match Dict.step d op with
@@ -91,7 +91,7 @@ def pyRun : Dict Atom Atom → List (Op Atom Atom) → List String
 def handle (line : String) : String :=
   match (clean line).splitOn "|" with
   | [kind, kv, vv, ns, init, ops] =>
-    match Atom.validator (clean kv), Atom.validator (clean vv), parseNotifiers ns, pairs? init,
+    match KAtom.validator (clean kv), KAtom.validator (clean vv), parseNotifiers ns, pairs? init,
         (fields ops ";").mapM parseOp with
     | some kv, some vv, some ns, some init, some ops =>
       if clean kind = "pd" then " ; ".intercalate (pyRun (Dict.ofPairs init) ops)
